@@ -1,5 +1,6 @@
 import Pendulum.Proofs.WeekNav2
 import Pendulum.Proofs.WeekNavDT
+import Pendulum.Proofs.WeekNavDTQY
 /-! # C16 — weekday navigation lands on the right day inside the right unit
 
 Property theorems only. `WeekNav.*` (Model/WeekNav.lean) is the hand model of `Date`/`DateTime`
@@ -248,5 +249,166 @@ theorem dt_sao_paulo_2013 :
           | .ok (some r) => r.w | _ => 0) = wallOf 735161 0 + 3600000000 ∧
          (match dtNthOf .month ⟨.named saoPaulo2013, 1380628800000000, f⟩ 4 6 with
           | .ok (some r) => r.w | _ => 0) = wallOf 735168 0 := by decide
+
+/-! ## DateTime, quarter and year variants
+
+`first_of/last_of("quarter"|"year")` build an *anchor* with `self._boundary` (first day of the unit; first day of the
+unit's last month) and call the month-level function **on the anchor**; `nth_of` walks with `next()` from such an anchor and
+ends with `self._boundary(self.year, dt.month, dt.day)`. Side condition as for the month: the anchor day / the walked days
+are not skipped entirely in the zone (`OnDay`; always true for naive values and fixed offsets, `on_day_cases`). -/
+
+/-- `DateTime.first_of("quarter"|"year", wd | None)`: `_boundary` — called from the anchor `r0 = self._boundary(first day
+    of the unit)` — of the Date-level result. Partial: the first day of the unit is not skipped entirely in the zone. -/
+theorem dt_first_of_quarter_year_partial (u : Unit') (hu : u ≠ .month) (v : V) (wd : Option Int)
+    (hwd : ∀ w, wd = some w → 0 ≤ w ∧ w ≤ 6) (hp : OnDay v.z (firstOf u (dayOrd v.w) none)) :
+    ∃ r0, boundaryOrd v (firstOf u (dayOrd v.w) none) = .ok r0 ∧ r0.z = v.z ∧
+      dayOrd r0.w = firstOf u (dayOrd v.w) none ∧
+      dtFirstOf u v wd = boundaryOrd r0 (firstOf u (dayOrd v.w) wd) := by
+  rw [firstOf_none] at hp ⊢
+  cases u with
+  | month => exact absurd rfl hu
+  | quarter => exact dtFirstOfQuarter_eq v wd hwd hp
+  | year => exact dtFirstOfYear_eq v wd hwd hp
+
+/-- `DateTime.last_of("quarter"|"year", wd | None)`: `_boundary` — called from the anchor `r0 = self._boundary(first day
+    of the unit's last month)` — of the Date-level result. Partial: that day is not skipped entirely in the zone. -/
+theorem dt_last_of_quarter_year_partial (u : Unit') (hu : u ≠ .month) (v : V) (wd : Option Int)
+    (hwd : ∀ w, wd = some w → 0 ≤ w ∧ w ≤ 6)
+    (hp : OnDay v.z (firstOf .month (lastOf u (dayOrd v.w) none) none)) :
+    ∃ r0, boundaryOrd v (firstOf .month (lastOf u (dayOrd v.w) none) none) = .ok r0 ∧ r0.z = v.z ∧
+      dayOrd r0.w = firstOf .month (lastOf u (dayOrd v.w) none) none ∧
+      dtLastOf u v wd = boundaryOrd r0 (lastOf u (dayOrd v.w) wd) := by
+  rw [lastOf_none, firstOf_none] at hp ⊢
+  cases u with
+  | month => exact absurd rfl hu
+  | quarter => exact dtLastOfQuarter_eq v wd hwd hp
+  | year => exact dtLastOfYear_eq v wd hwd hp
+
+/-- calling `_boundary` from the anchor instead of from the instance changes nothing when the anchor carries the
+    instance's fold (`AnchorPlain`: naive, fixed offset, fold 0, or an anchor midnight that is neither skipped nor
+    repeated) … -/
+theorem dt_boundary_via_anchor (v r0 : V) (A o : Int) (h : boundaryOrd v A = .ok r0) (hpl : AnchorPlain v A) :
+    boundaryOrd r0 o = boundaryOrd v o := boundaryOrd_via_anchor v r0 A o h hpl
+
+/-- … and otherwise only the `fold` attribute of an ordinary midnight: two `_boundary` calls for the same day from any two
+    instances of one zone have the same outcome, and on success the same zone, wall time and UTC offset (same instant) -/
+theorem dt_boundary_same_moment (v v' : V) (o : Int) (hz : v.z = v'.z) :
+    match boundaryOrd v o, boundaryOrd v' o with
+    | .ok a, .ok b => a.z = b.z ∧ a.w = b.w ∧ a.offset = b.offset ∧ a.instant = b.instant
+    | .error e, .error e' => e = e'
+    | _, _ => False := by
+  have h := boundaryOrd_same_moment v v' o hz
+  revert h
+  cases boundaryOrd v o <;> cases boundaryOrd v' o <;> simp only [imp_self]
+  rintro ⟨a, b, c⟩
+  exact ⟨a, b, c, by unfold V.instant; rw [b, c]⟩
+
+/-- `first_of` / `last_of` for quarter and year at full strength — exactly `self._boundary` of the Date-level result —
+    when the anchors are not skipped entirely and carry the instance's fold -/
+theorem dt_first_last_of_quarter_year (u : Unit') (hu : u ≠ .month) (v : V) (wd : Option Int)
+    (hwd : ∀ w, wd = some w → 0 ≤ w ∧ w ≤ 6)
+    (hp1 : OnDay v.z (firstOf u (dayOrd v.w) none)) (ha1 : AnchorPlain v (firstOf u (dayOrd v.w) none))
+    (hp2 : OnDay v.z (firstOf .month (lastOf u (dayOrd v.w) none) none))
+    (ha2 : AnchorPlain v (firstOf .month (lastOf u (dayOrd v.w) none) none)) :
+    dtFirstOf u v wd = boundaryOrd v (firstOf u (dayOrd v.w) wd) ∧
+    dtLastOf u v wd = boundaryOrd v (lastOf u (dayOrd v.w) wd) := by
+  obtain ⟨r0, e0, _, _, h0⟩ := dt_first_of_quarter_year_partial u hu v wd hwd hp1
+  obtain ⟨r1, e1, _, _, h1⟩ := dt_last_of_quarter_year_partial u hu v wd hwd hp2
+  exact ⟨by rw [h0, boundaryOrd_via_anchor v r0 _ _ e0 ha1], by rw [h1, boundaryOrd_via_anchor v r1 _ _ e1 ha2]⟩
+
+/-- naive values and fixed offsets: no side condition at all, for month, quarter and year -/
+theorem dt_first_last_of_naive_fixed (u : Unit') (v : V) (hz : v.z = .naive ∨ ∃ off, v.z = .fixed off)
+    (wd : Option Int) (hwd : ∀ w, wd = some w → 0 ≤ w ∧ w ≤ 6) :
+    dtFirstOf u v wd = boundaryOrd v (firstOf u (dayOrd v.w) wd) ∧
+    dtLastOf u v wd = boundaryOrd v (lastOf u (dayOrd v.w) wd) := by
+  have hod : ∀ o, OnDay v.z o := by
+    intro o; rcases hz with h | ⟨off, h⟩ <;> rw [h]
+    · exact onDay_naive o
+    · exact onDay_fixed off o
+  have hap : ∀ A, AnchorPlain v A := by
+    intro A; unfold AnchorPlain; rcases hz with h | ⟨off, h⟩ <;> rw [h] <;> trivial
+  by_cases hu : u = .month
+  · subst hu; exact dt_first_last_of_month v wd hwd
+  · exact dt_first_last_of_quarter_year u hu v wd hwd (hod _) (hap _) (hod _) (hap _)
+
+/-- `DateTime.nth_of("quarter"|"year", n, wd)`, every n ≥ 1: `_boundary` of the Date-level result — from the instance for
+    n ≥ 2, from the anchor `r0` for n = 1 (which is `first_of`) —, `PendulumException` (`none`) in exactly the same cases.
+    Partial: none of the days walked over (first of the unit … + 7 n) and, for the quarter, the first day of its last month
+    (the starting anchor `self._boundary(self.year, self.quarter * 3, 1)`) is skipped entirely in the zone. -/
+theorem dt_nth_of_quarter_year_partial (u : Unit') (hu : u ≠ .month) (v : V) (nth : Nat) (wd : Int) (hn : 1 ≤ nth)
+    (hwd : 0 ≤ wd ∧ wd ≤ 6)
+    (hA : u = .quarter → OnDay v.z (firstOf .month (lastOf u (dayOrd v.w) none) none))
+    (hp : ∀ j, firstOf u (dayOrd v.w) none ≤ j → j ≤ firstOf u (dayOrd v.w) none + 7 * nth → OnDay v.z j) :
+    ∃ r0, boundaryOrd v (firstOf u (dayOrd v.w) none) = .ok r0 ∧ r0.z = v.z ∧
+      dtNthOf u v nth wd =
+        match nthOf u (dayOrd v.w) nth wd with
+        | some r => (boundaryOrd (if nth = 1 then r0 else v) r).map some
+        | none => .ok none := by
+  have hwd' : ∀ w, some wd = some w → 0 ≤ w ∧ w ≤ 6 := by intro w hw; cases hw; exact hwd
+  obtain ⟨r0, e0, z0, _, h0⟩ := dt_first_of_quarter_year_partial u hu v (some wd) hwd' (hp _ (by omega) (by omega))
+  refine ⟨r0, e0, z0, ?_⟩
+  by_cases h1 : nth = 1
+  · subst h1
+    have e1 : dtNthOf u v 1 wd = (dtFirstOf u v (some wd)).map some := by
+      cases u <;> simp [dtNthOf, dtNthOfMonth, dtNthOfQuarter, dtNthOfYear, dtFirstOf]
+    have e2 : nthOf u (dayOrd v.w) 1 wd = some (firstOf u (dayOrd v.w) (some wd)) := by
+      cases u <;> simp [nthOf, nthOfMonth, nthOfQuarter, nthOfYear, firstOf]
+    rw [e1, e2, h0]; simp only [if_true]
+  · simp only [if_neg h1]
+    rw [firstOf_none] at hp
+    cases u with
+    | month => exact absurd rfl hu
+    | quarter =>
+      have hA' := hA rfl
+      rw [lastOf_none, firstOf_none] at hA'
+      exact dtNthOfQuarter_eq v nth wd (by omega) hwd hA' hp
+    | year => exact dtNthOfYear_eq v nth wd (by omega) hwd hp
+
+/-- naive values and fixed offsets: `nth_of` for month, quarter and year, every n ≥ 1, with no side condition -/
+theorem dt_nth_of_naive_fixed (u : Unit') (v : V) (hz : v.z = .naive ∨ ∃ off, v.z = .fixed off)
+    (nth : Nat) (wd : Int) (hn : 1 ≤ nth) (hwd : 0 ≤ wd ∧ wd ≤ 6) :
+    dtNthOf u v nth wd =
+      match nthOf u (dayOrd v.w) nth wd with
+      | some r => (boundaryOrd v r).map some
+      | none => .ok none := by
+  have hod : ∀ o, OnDay v.z o := by
+    intro o; rcases hz with h | ⟨off, h⟩ <;> rw [h]
+    · exact onDay_naive o
+    · exact onDay_fixed off o
+  have hap : ∀ A, AnchorPlain v A := by
+    intro A; unfold AnchorPlain; rcases hz with h | ⟨off, h⟩ <;> rw [h] <;> trivial
+  by_cases hu : u = .month
+  · subst hu; exact dt_nth_of_month_partial v nth wd hn hwd (fun j _ _ => hod j)
+  · obtain ⟨r0, e0, _, h⟩ := dt_nth_of_quarter_year_partial u hu v nth wd hn hwd (fun _ => hod _) (fun j _ _ => hod j)
+    rw [h]
+    cases nthOf u (dayOrd v.w) nth wd with
+    | none => rfl
+    | some r =>
+      simp only []
+      split
+      · rw [boundaryOrd_via_anchor v r0 _ r e0 (hap _)]
+      · rfl
+
+/-! non-vacuity of the quarter / year theorems: 2013-10-20T12:00 (ordinal 735161), naive, fixed +01:00 and the toy
+Sao_Paulo table (00:00 of 2013-10-20 skipped) -/
+example : (match dtFirstOf .quarter ⟨.naive, 1382270400000000, true⟩ (some 0) with | .ok r => r.w | .error _ => 0)
+      = wallOf (firstOf .quarter 735161 (some 0)) 0 ∧ firstOf .quarter 735161 (some 0) = 735148 ∧
+    (match dtLastOf .year ⟨.fixed 3600000000, 1382270400000000, true⟩ (some 6) with | .ok r => r.w | .error _ => 0)
+      = wallOf (lastOf .year 735161 (some 6)) 0 ∧ lastOf .year 735161 (some 6) = 735231 := by decide
+/-- third Sunday of the quarter = 42nd Sunday of the year = 2013-10-20, whose midnight is skipped: 01:00; there is no 14th
+    Sunday in the quarter and no 53rd in the year -/
+example : ∀ f, nthOf .quarter 735161 3 6 = some 735161 ∧ nthOf .year 735161 42 6 = some 735161 ∧
+    (match dtNthOf .quarter ⟨.named saoPaulo2013, 1382270400000000, f⟩ 3 6 with | .ok (some r) => r.w | _ => 0)
+      = wallOf 735161 0 + 3600000000 ∧
+    (match dtNthOf .year ⟨.named saoPaulo2013, 1382270400000000, f⟩ 42 6 with | .ok (some r) => r.w | _ => 0)
+      = wallOf 735161 0 + 3600000000 ∧
+    nthOf .quarter 735161 14 6 = none ∧ nthOf .year 735161 53 6 = none ∧
+    (match dtNthOf .quarter ⟨.named saoPaulo2013, 1382270400000000, f⟩ 14 6 with | .ok none => 1 | _ => 0) = 1 ∧
+    (match dtNthOf .year ⟨.named saoPaulo2013, 1382270400000000, f⟩ 53 6 with | .ok none => 1 | _ => 0) = 1 := by
+  decide +kernel
+/-- the side conditions are satisfiable in a zone with a skipped midnight -/
+example : OnDay (.named saoPaulo2013) 735161 ∧ OnDay (.named saoPaulo2013) 735142 ∧
+    AnchorPlain ⟨.named saoPaulo2013, 1382270400000000, true⟩ 735142 :=
+  ⟨onDay_named _ _ (by decide) (by decide), onDay_named _ _ (by decide) (by decide), Or.inr (by decide)⟩
 
 end Pendulum.Props.C16
